@@ -43,7 +43,7 @@ func (s *sided) valOfExpr(e ast.Expr) *VOpaque {
 			if id, ok := te.(*ast.Ident); ok {
 				if h := s.rs.hole(id.Name); h != nil {
 					if o, ok := h.Val.(*VOpaque); ok {
-						return o
+						return unmangled(o)
 					}
 				}
 			}
@@ -55,7 +55,7 @@ func (s *sided) valOfExpr(e ast.Expr) *VOpaque {
 				if id, ok := st.X.(*ast.Ident); ok {
 					if h := s.rs.hole(id.Name); h != nil && h.Kind == "TYPE" {
 						if o, ok := h.Val.(*VOpaque); ok {
-							return o
+							return unmangled(o)
 						}
 					}
 				}
@@ -696,4 +696,14 @@ func curriedCompat(c *Ctx, plugin string, bodies map[string]map[int]string, body
 	if pairs == 0 {
 		c.Rep.pass("R-curried")
 	}
+}
+
+// unmangled: a type whose text went through a format (interp.go mangledType) denotes the same values as the original.
+func unmangled(o *VOpaque) *VOpaque {
+	if o != nil {
+		if m, ok := o.attrs["#mangledOf"].(*VOpaque); ok {
+			return m
+		}
+	}
+	return o
 }
